@@ -287,3 +287,91 @@ def install_overload(recorder):
     Scope.RegisterFunction = RegisterFunction
     Scope.FindFunction = FindFunction
     _OVL["installed"] = True
+
+
+# ------------------------------------------------------------- C19 writer integers
+from ..ref import leb as _leb  # noqa: E402
+
+
+class PackRecorder:
+    def __init__(self):
+        self.evaluations = 0
+        self.negative = 0
+        self.findings = []
+        self.seen = set()
+        self.strings = 0
+
+    def find(self, kind, value, detail):
+        k = (kind, value if isinstance(value, int) and abs(value) < 1 << 40 else str(value)[:20])
+        if k in self.seen:
+            return
+        self.seen.add(k)
+        if len(self.findings) < 2000:
+            self.findings.append({"kind": kind, "value": value if isinstance(value, int) else repr(value)[:40], "detail": detail})
+
+
+_PACK = {"rec": None, "installed": False}
+
+
+def _judge_pack(v, result, raised):
+    r = _PACK["rec"]
+    if r is None:
+        return
+    r.evaluations += 1
+    if not isinstance(v, int) or isinstance(v, bool):
+        if raised is None:
+            r.find("non-integer-packed", v, "PackInteger(%r) returned %r" % (v, bytes(result)[:8] if result is not None else None))
+        return
+    if v < 0:
+        r.negative += 1
+        if raised is not None:
+            return          # refusing negatives here is fine (a separate signed packer may exist)
+        try:
+            d, n = _leb.sleb(bytes(result))
+        except _leb.LebError as e:
+            r.find("negative-not-sleb", v, "bytes %s: %s" % (bytes(result).hex(), e))
+            return
+        if d != v or n != len(result):
+            r.find("negative-not-sleb", v, "bytes %s decode (signed) to %d" % (bytes(result).hex(), d))
+        return
+    if raised is not None:
+        if v < 1 << 32:
+            r.find("unsigned-raises", v, raised)
+        return
+    b = bytes(result)
+    try:
+        d, n = _leb.uleb(b)
+    except _leb.LebError as e:
+        r.find("unsigned-not-uleb", v, "bytes %s: %s" % (b.hex(), e))
+        return
+    if d != v or n != len(b):
+        r.find("unsigned-not-uleb", v, "bytes %s decode (unsigned) to %d using %d of %d bytes" % (b.hex(), d, n, len(b)))
+    elif v < 1 << 32 and len(b) > 5:
+        r.find("unsigned-too-long", v, "%d bytes" % len(b))
+
+
+def install_pack(recorder):
+    """contract on nsl.WebAssembly.PackInteger (also reached through WriteInteger, which looks it up at call time)"""
+    _PACK["rec"] = recorder
+    if _PACK["installed"]:
+        return
+    import nsl.WebAssembly as W
+    orig = W.PackInteger
+
+    def pack_postcondition(v, result):
+        _judge_pack(v, result, None)
+        return True
+
+    contracted = icontract.ensure(pack_postcondition, error=ContractBroken)(orig)
+
+    def PackInteger(v):
+        try:
+            return contracted(v)
+        except ContractBroken:
+            raise
+        except BaseException as e:
+            _judge_pack(v, None, type(e).__name__)
+            raise
+
+    W.PackInteger = PackInteger
+    _PACK["installed"] = True
